@@ -151,14 +151,6 @@ def check_shared(rep, sc, outs, mout, idx, seed):
                 rep.violation("shared ABF: walker %d reported no grids after exchange %d" % (w, k), replay, "shared_nodump_%d_seed%d" % (idx, seed), found_input=True)
                 return ncmp
             ncmp += 1
-            # correspondence
-            for t in got:
-                if len(got[t]) != len(mod[t]) or any(not close(a, b) for a, b in zip(got[t], mod[t])):
-                    rep.violation("shared ABF: model and implementation disagree on %s of walker %d after exchange %d (scenario %d: %d walkers, sharedFreq %d): impl %r model %r"
-                                  % (t, w, k, idx, n, F, got[t], mod[t]),
-                                  "#! correspondence CvModel.Shared <-> colvarbias_abf::replica_share broken\n" + replay,
-                                  "shared_corr_%d_seed%d" % (idx, seed), found_input=False)
-                    return ncmp
             # oracle: the union of all samples before the exchange, each once (+ this walker's own sample of the exchange step)
             own = plan[w][k * F]
             ec = list(tc); eg = list(tg)
@@ -184,6 +176,14 @@ def check_shared(rep, sc, outs, mout, idx, seed):
                     bad, idx, n, F, ", walker %d stopped and resumed at exchange %d %s a sample at that step" % (rw, rk, "with" if rpend else "without") if rw >= 0 else ""),
                     replay, "shared_oracle_%d_seed%d" % (idx, seed), found_input=True, signature=sig)
                 return ncmp
+            # correspondence
+            for t in got:
+                if len(got[t]) != len(mod[t]) or any(not close(a, b) for a, b in zip(got[t], mod[t])):
+                    rep.violation("shared ABF: model and implementation disagree on %s of walker %d after exchange %d (scenario %d: %d walkers, sharedFreq %d): impl %r model %r"
+                                  % (t, w, k, idx, n, F, got[t], mod[t]),
+                                  "#! correspondence CvModel.Shared <-> colvarbias_abf::replica_share broken\n" + replay,
+                                  "shared_corr_%d_seed%d" % (idx, seed), found_input=False)
+                    return ncmp
     return ncmp
 
 
